@@ -241,7 +241,7 @@ theorem tfFingerprints_expected : tfFingerprints = [
   ("search.go:getTSIDsForTagFilterSlow", "b9d10d3ed04799cb"),
   ("search.go:chooseINPriority", "262e2d046f5ad34e"),
   ("search.go:seriesByINExprIterator", "0f7232368bf00559"),
-  ("search.go:seriesByBinaryExprSetLiteral", "51c5d07cbb5430ab"),
+  ("search.go:seriesByBinaryExprSetLiteral", "d10f6c1c74ecbe9a"),
   ("search.go:seriesByBinaryExprVarRef", "ce704c78c9911f3e"),
   ("search.go:seriesByOneTagFilter", "0dd6cae0711b5d67"),
   ("search.go:seriesByAllIdsIterator", "a5a8cb35cebc0d18"),
